@@ -193,10 +193,38 @@ var c16StreamItems = []string{"H1o", "H1", "H3", "D1m", "D1", "WUzero1", "WUbig1
 
 const c16FloodN = 10050
 
+// c16FloodTemplates: the templates repeated c16FloodN times by the
+// "FLOOD:rep:" macros (besides PING and SETTINGS): frames on stream 1 that the
+// server answers with an RST_STREAM in some state of that stream — idle, open,
+// half-closed (remote), closed — and that are (WINDOW_UPDATE 0 / overflowing,
+// PRIORITY on itself, unparsable PRIORITY_UPDATE) or are not (DATA, a second
+// HEADERS block) ignored on a stream whose RST_STREAM is already queued.
+var c16FloodTemplates = []string{"WUbig1", "WUzero1", "PRIself", "PUbad", "D1m", "T1"}
+
 // c16Flood returns the bytes of a flood macro-event.
 func c16Flood(name string) []byte {
 	var b []byte
+	if t, ok := strings.CutPrefix(name, "FLOOD:rep:"); ok {
+		// the same frame template, c16FloodN times
+		f := c16ItemBytes(t)
+		for i := 0; i < c16FloodN; i++ {
+			b = append(b, f...)
+		}
+		return b
+	}
 	switch name {
+	case "FLOOD:newstreams", "FLOOD:newrejected":
+		// c16FloodN requests on fresh stream ids (above those of any prefix),
+		// none of them reset by the client: complete valid requests (refused
+		// once MAX_CONCURRENT_STREAMS handlers are busy) / requests without
+		// :path (each rejected with a stream error)
+		blk := c16Req
+		if name == "FLOOD:newrejected" {
+			blk = []byte{0x82, 0x87}
+		}
+		for i := 0; i < c16FloodN; i++ {
+			b = append(b, c16Frame(FrameHeaders, 0x5, uint32(2*i+5), blk)...)
+		}
 	case "FLOOD:ping":
 		f := c16Items["PING"]
 		for i := 0; i < c16FloodN; i++ {
@@ -393,6 +421,14 @@ func (r *c16Run) check(where string) {
 		}
 		if pk.QueuedControlFrames > MaxQueuedControlFrames+1 {
 			r.fail("bounds/queued-control-frames", "%s: %d control frames queued (limit %d)", where, pk.QueuedControlFrames, MaxQueuedControlFrames)
+		}
+		// the same bound on what is really queued: the write scheduler's
+		// queues are walked and the RST_STREAM / PING ack / SETTINGS ack
+		// frames in them counted, whatever the server's own counter says
+		if rst, pa, sa, ok := s.sc.C16QueuedResponses(); !ok {
+			r.fail("harness/unknown-write-scheduler", "%s: the queue walker does not know the connection's write scheduler", where)
+		} else if rst+pa+sa > MaxQueuedControlFrames+1 {
+			r.fail("bounds/queued-response-frames", "%s: %d RST_STREAM + %d PING ack + %d SETTINGS ack frames are queued in the write scheduler (limit %d; the server's own count of queued control frames is %d) and the connection is still being served; cfg=%s", where, rst, pa, sa, MaxQueuedControlFrames, pk.QueuedControlFrames, r.s.o.Sched)
 		}
 		if pk.CurHandlers > pk.AdvMaxStreams {
 			r.fail("bounds/running-handlers", "%s: curHandlers=%d > advertised MAX_CONCURRENT_STREAMS=%d", where, pk.CurHandlers, pk.AdvMaxStreams)
@@ -724,7 +760,7 @@ func TestVerif_C16(t *testing.T) {
 		bndW := vx.Pick(c, 48, 128) // free bytes swept: 0..bndW (PING ack 17, SETTINGS ack 9, RST_STREAM 13, response HEADERS+DATA of the harness handler < 128)
 		bndW2 := 48                 // the same for sessions with 2 templates after the fill
 		bndScheds := vx.Pick(c, []string{""}, []string{"", "7540", "rr", "rand"})
-		c.Rule(fmt.Sprintf("sessions over %d raw frame templates (valid frames of every type and single-field corruptions: lengths, stream ids, flags, padding, HPACK garbage, limits): (frames) valid preface+SETTINGS then every sequence of <=%d templates, item by item and as one burst followed by an immediate hang-up, handler writing / handler blocking; (truncate) every sequence of <=%d templates cut at every byte offset of its last template; (preface) no / short / wrong / split preface and missing SETTINGS before every template; (stuck-writer) every sequence of <=%d templates of a 12-template stream subset while the client does not read, for each of the four write schedulers (quick: length-4 sessions on the RFC 7540 scheduler only), then the client reads again; (queued-reset) the client stops reading, a PING (thorough: PING or SETTINGS) is answered so that the writer is blocked in a flush and every RST_STREAM the server produces stays queued, then every sequence of <=%d templates of a %d-template alphabet — requests on stream 1 accepted (open / END_STREAM / Content-Length 1) and rejected with a stream error at every stage (invalid field name in the framer, self-dependency, no :path, unparsable :path, malformed CONNECT; with and without END_STREAM), then every frame type on that stream (DATA with/without END_STREAM, trailers and repeated HEADERS, RST_STREAM, WINDOW_UPDATE 1 / 0 / overflowing, PRIORITY, PRIORITY on itself, PRIORITY_UPDATE valid / unparsable, unknown type), PING, and a second stream with DATA / WINDOW_UPDATE / RST_STREAM — with MAX_CONCURRENT_STREAMS 2 and 1 (second stream refused) on all four schedulers (length-%d sessions: after PING on the default RFC 9218 scheduler with MAX_CONCURRENT_STREAMS 2 only), then the client reads again; (buffer-boundary) the client stops reading, a PING (thorough: PING or SETTINGS) is answered so that the writer is blocked in a flush, then the client sends p PINGs and s SETTINGS so that the server owes exactly f = 17p+9s bytes of acks, for every f from %d-%d to %d (the server's write buffer size) in the composition with the fewest SETTINGS and in the one with the fewest PINGs, then every sequence of <=%d templates of the stream subset + a rejected request (2-template sequences: f >= %d-%d, default scheduler, after PING), then the client takes exactly one frame out of the connection and stops reading again, so that the server writes its queued responses back-to-back and every kind of response (PING ack, SETTINGS ack, RST_STREAM, response HEADERS / DATA) is started with every number 0..%d of bytes free in the write buffer while the peer accepts nothing (quick: default scheduler; thorough: all four), then the client reads again; (shutdown) a request on stream 1 (body left open / END_STREAM) whose handler blocks until cancelled / ignores cancellation / finishes at once, then a client GOAWAY (NO_ERROR / with an error code) — or no GOAWAY and a handler that answers with \"Connection: close\" and then blocks — so that the connection is in a graceful shutdown that waits for the stream (or has just completed), then every sequence of <=%d templates of the full alphabet, item by item and (<=1 template) as one burst followed by an immediate hang-up; (floods) %d x PING / SETTINGS / HEADERS+RST_STREAM / empty CONTINUATION with reading and non-reading client on all four schedulers; each session on a fresh real server in its own synctest bubble; non-trivial = session ran to its end-of-session probe", len(names), seqLen, vx.Pick(c, 1, 2), blkLen, rstLen, len(c16ResetItems), rstLen, C16WriteBufSize, bndW, C16WriteBufSize, bndLen, C16WriteBufSize, bndW2, bndW, shutLen, c16FloodN))
+		c.Rule(fmt.Sprintf("sessions over %d raw frame templates (valid frames of every type and single-field corruptions: lengths, stream ids, flags, padding, HPACK garbage, limits): (frames) valid preface+SETTINGS then every sequence of <=%d templates, item by item and as one burst followed by an immediate hang-up, handler writing / handler blocking; (truncate) every sequence of <=%d templates cut at every byte offset of its last template; (preface) no / short / wrong / split preface and missing SETTINGS before every template; (stuck-writer) every sequence of <=%d templates of a 12-template stream subset while the client does not read, for each of the four write schedulers (quick: length-4 sessions on the RFC 7540 scheduler only), then the client reads again; (queued-reset) the client stops reading, a PING (thorough: PING or SETTINGS) is answered so that the writer is blocked in a flush and every RST_STREAM the server produces stays queued, then every sequence of <=%d templates of a %d-template alphabet — requests on stream 1 accepted (open / END_STREAM / Content-Length 1) and rejected with a stream error at every stage (invalid field name in the framer, self-dependency, no :path, unparsable :path, malformed CONNECT; with and without END_STREAM), then every frame type on that stream (DATA with/without END_STREAM, trailers and repeated HEADERS, RST_STREAM, WINDOW_UPDATE 1 / 0 / overflowing, PRIORITY, PRIORITY on itself, PRIORITY_UPDATE valid / unparsable, unknown type), PING, and a second stream with DATA / WINDOW_UPDATE / RST_STREAM — with MAX_CONCURRENT_STREAMS 2 and 1 (second stream refused) on all four schedulers (length-%d sessions: after PING on the default RFC 9218 scheduler with MAX_CONCURRENT_STREAMS 2 only), then the client reads again; (buffer-boundary) the client stops reading, a PING (thorough: PING or SETTINGS) is answered so that the writer is blocked in a flush, then the client sends p PINGs and s SETTINGS so that the server owes exactly f = 17p+9s bytes of acks, for every f from %d-%d to %d (the server's write buffer size) in the composition with the fewest SETTINGS and in the one with the fewest PINGs, then every sequence of <=%d templates of the stream subset + a rejected request (2-template sequences: f >= %d-%d, default scheduler, after PING), then the client takes exactly one frame out of the connection and stops reading again, so that the server writes its queued responses back-to-back and every kind of response (PING ack, SETTINGS ack, RST_STREAM, response HEADERS / DATA) is started with every number 0..%d of bytes free in the write buffer while the peer accepts nothing (quick: default scheduler; thorough: all four), then the client reads again; (shutdown) a request on stream 1 (body left open / END_STREAM) whose handler blocks until cancelled / ignores cancellation / finishes at once, then a client GOAWAY (NO_ERROR / with an error code) — or no GOAWAY and a handler that answers with \"Connection: close\" and then blocks — so that the connection is in a graceful shutdown that waits for the stream (or has just completed), then every sequence of <=%d templates of the full alphabet, item by item and (<=1 template) as one burst followed by an immediate hang-up; (floods) %d x PING / SETTINGS / HEADERS+RST_STREAM / empty CONTINUATION with reading and non-reading client on all four schedulers, and %d x each frame that makes the server owe one RST_STREAM per received frame — on stream 1 WINDOW_UPDATE overflowing / 0, PRIORITY on itself, unparsable PRIORITY_UPDATE, DATA, a second HEADERS block, against every state of that stream (idle / open / half-closed (remote) / closed by RST_STREAM; thorough: + implicitly closed by a higher stream id), and complete / :path-less requests on ever new stream ids that the client never resets — after a PING whose ack blocks the writer of a non-reading client in a flush, so that nothing the flood provokes is written before its end (quick: default scheduler, handler blocking; thorough: all four schedulers, handler blocking / writing, and also with the writer free or blocked only by its first response, and the four older floods after the blocking PING); each session on a fresh real server in its own synctest bubble; non-trivial = session ran to its end-of-session probe", len(names), seqLen, vx.Pick(c, 1, 2), blkLen, rstLen, len(c16ResetItems), rstLen, C16WriteBufSize, bndW, C16WriteBufSize, bndLen, C16WriteBufSize, bndW2, bndW, shutLen, c16FloodN, c16FloodN))
 		c.Assume("\"bounded time\" is 30 s of synctest fake time; a session that stops in the middle of a frame may leave the server waiting for the rest (no read timeout is configured), which counts as serving; after GOAWAY without error the server is still required to answer PING or to have closed")
 		c.Assume("panics on the serve goroutine are observed through the package's testHookOnPanic (the connection is torn down instead of the process); panics on any other goroutine kill the shard and are attributed by the driver (crash_is_violation)")
 		opts := vx.Opts{Serial: true, Crumb: true}
@@ -882,6 +918,54 @@ func TestVerif_C16(t *testing.T) {
 								return
 							}
 							if !yield(c16Case{Cfg: sc + mode, Pre: "ok", Items: append(append([]string(nil), items...), "PING")}) {
+								return
+							}
+						}
+					}
+				}
+			}
+			// every frame kind that makes the server owe one frame (RST_STREAM,
+			// PING ack, SETTINGS ack) per received frame, against every state of
+			// the stream it names, with the writer free, blocked by its first
+			// response, or already blocked in a flush when the flood starts
+			// (blocker PING: nothing the flood provokes is written before its end)
+			spres := [][]string{nil, {"H1o"}, {"H1"}, {"H1o", "R1"}, {"H3o"}}
+			type wedge struct {
+				mode    string
+				blocker bool
+			}
+			wedges := []wedge{{"-hb-blk", true}, {"-hw-blk", true}, {"-hb-blk", false}, {"-hw-blk", false}, {"-hb", false}, {"-hw", false}}
+			nscheds := scheds
+			if c.Quick() {
+				spres = [][]string{nil, {"H1o"}, {"H1"}, {"H1o", "R1"}}
+				wedges = wedges[:1]
+				nscheds = []string{""}
+			}
+			oldFloods := []string{"FLOOD:ping", "FLOOD:settings", "FLOOD:rapidreset", "FLOOD:continuation"}
+			floods := append([]string(nil), oldFloods...)
+			for _, t := range c16FloodTemplates {
+				floods = append(floods, "FLOOD:rep:"+t)
+			}
+			floods = append(floods, "FLOOD:newstreams", "FLOOD:newrejected")
+			for i, fl := range floods {
+				for _, sc := range nscheds {
+					for _, wd := range wedges {
+						if i < len(oldFloods) && (!wd.blocker || c.Quick()) {
+							continue // enumerated above
+						}
+						for _, pre := range spres {
+							if fl == "FLOOD:rapidreset" && len(pre) > 0 {
+								continue // the flood itself starts at stream 1
+							}
+							if fl == "FLOOD:continuation" && len(pre) > 0 && pre[0] != "H3o" {
+								continue // the flood opens stream 1
+							}
+							var items []string
+							if wd.blocker {
+								items = append(items, "PING")
+							}
+							items = append(append(items, pre...), fl, "PING")
+							if !yield(c16Case{Cfg: sc + wd.mode, Pre: "ok", Items: items}) {
 								return
 							}
 						}
